@@ -297,6 +297,9 @@ func (r *Run) Finish(level, rule string, assumptions []string) {
 	for _, k := range keys {
 		fmt.Printf("  observed %-55s %d\n", k, r.counters[k])
 	}
+	if len(r.samples) == 0 {
+		r.T.Errorf("BROKEN-CHECK property=%s: no sample case recorded", r.Prop)
+	}
 	if r.evals == 0 || len(r.distinct) < 2 {
 		r.T.Errorf("BROKEN-CHECK property=%s: no cases evaluated", r.Prop)
 	}
